@@ -390,6 +390,11 @@ class DefaultWorker(Worker):
 
         with self._plock:
             pid  = task['pid']
+            if pid not in self._pool:
+                # a result for this request was handled before (the request
+                # finished just as it timed out): the first one counts
+                self._log.debug('drop 2nd result: task %s', task['uid'])
+                return
             del self._pool[pid]
 
         # free resources again for the task
